@@ -1167,6 +1167,20 @@ class Machine:
             else:
                 r = self.world.indirect_call(self, st, fval, args, t)
                 return self.finish_call(st, fr, t, r)
+        if (not callee["resolved"] or callee.get("virtual")) and callee.get("trait") and args:
+            # a trait method called on a generic receiver from an inlined helper: the receiver's value has a
+            # concrete type here, so the call is the impl's method (what monomorphisation would call)
+            recv = args[0]
+            depth = 0
+            while isinstance(recv, Ref) and depth < 4:
+                try:
+                    recv = self.load(st, recv.loc)
+                except AnalysisError:
+                    break
+                depth += 1
+            if isinstance(recv, Adt) and self.prog.is_ws("<%s as %s>::%s" % (recv.ty, callee["trait"], callee["name"])):
+                key = "<%s as %s>::%s" % (recv.ty, callee["trait"], callee["name"])
+                callee = dict(callee, path=key, full=key, resolved=True, virtual=False, local=True)
         r = self.world.call(self, st, callee, args, t)
         if r is None:
             h = self.models.get(callee["path"])
